@@ -21,7 +21,9 @@
 EXTENDS Integers, Sequences, FiniteSets, TLC, Json, IOUtils, CSV
 
 CONSTANTS Kinds,        \* font kinds explored: subset of FontKinds below
-          Srcs,         \* table sources: subset of {"ops", "file", "opsnr"} (opsnr: callbacks without release_table)
+          OptSet,       \* face option values explored: subset of 0..7
+          Srcs,         \* table sources: subset of {"ops", "file", "opsnr", "opsc"} (opsnr: callbacks without release_table;
+                        \* opsc: the deprecated gr_make_face_with_seg_cache_and_ops, same callbacks as "ops")
           Texts,        \* indices of the texts a history may shape
           ClientOps,    \* names of the client operations a history may contain
           MaxOps,       \* client operations per history (after MakeFace)
@@ -67,7 +69,7 @@ MakeFace(o, k, sr) ==
           /\ held' = (IF PreloadGlyphs(o) THEN {} ELSE LoaderTabs(k)) \cup (IF CacheCmap(o) THEN {} ELSE {"cmap"})
           /\ nameDone' = (PreloadGlyphs(o) /\ (HasName(k) \/ NameMemo))
      ELSE /\ phase' = "dead" /\ held' = {} /\ nameDone' = FALSE           \* failed: everything released before returning
-  /\ hist' = <<Op("make_face", o + (IF sr = "file" THEN 8 ELSE IF sr = "opsnr" THEN 16 ELSE 0))>>
+  /\ hist' = <<Op("make_face", o + (IF sr = "file" THEN 8 ELSE IF sr = "opsnr" THEN 16 ELSE IF sr = "opsc" THEN 24 ELSE 0))>>
   /\ UNCHANGED <<nfonts, nsegs, nfvals, afterMake>>
 
 \* gr_fref_label / gr_fref_value_label: Face::nameTable() fetches, copies and releases the name table on first use
@@ -108,7 +110,7 @@ DestroyFace ==
   /\ hist' = Append(hist, Op("destroy_face", 0))
   /\ UNCHANGED <<opts, kind, src, nameDone, nfonts, nsegs, nfvals, afterMake>>
 
-Next == \/ \E o \in 0..7, k \in Kinds, sr \in Srcs : MakeFace(o, k, sr)
+Next == \/ \E o \in OptSet, k \in Kinds, sr \in Srcs : MakeFace(o, k, sr)
         \/ LabelQuery \/ FaceQuery \/ DestroyFval
         \/ \E l \in {0, 1} : FeatVal(l)
         \/ \E p \in {0, 12} : MakeFont(p)
